@@ -42,7 +42,8 @@ ASSUMPTIONS = ["tolerances of DESIGN.md sec. 1.6; solver tolerance_mva scaled wi
                "bool (in_service) profiles always get their own DFData frame (DFData: 'take care that the data is numeric'; "
                "a mixed frame yields object rows and scale_factor is silently not applied)",
                "P/Q of gens / ext_grids that share an electrical node with another voltage-controlling element are not "
-               "compared individually (the split is not unique, DESIGN sec. 5 rule 4)",
+               "compared individually, nor is res_bus.p_mw/q_mvar of the buses fused into such a node (the split is not "
+               "unique, DESIGN sec. 5 rule 4)",
                "both sides are pandapower power flows (differential property by definition)"]
 
 PROFILE = netgen.profile(nb_max=9, nb_level=(1, 4), oos=0, open_prob=0.0, dcline=False, extra_branches=(0, 2),
@@ -479,6 +480,12 @@ def check(case):
             res.fail("recycle/" + _recycle_cause(base, case, mode), error=repr(e)[:300], where=exc_sig(e))
         else:
             sig = exc_sig(e)
+            empty = [t for t, _, _ in req if t in BATCH_TABLES and not len(base["bus" if t == "res_bus" else t[4:]])]
+            if mode == "batch" and empty and sig in ("KeyError@timeseries/read_batch_results.py:get_batch_line_results",
+                                                     "TypeError@timeseries/output_writer.py:get_batch_outputs"):
+                # the batch reader has no branch range for a table without elements (lines: KeyError, trafos: None)
+                res.fail("exc/batch/empty-table", error=repr(e)[:300], where=sig, empty=empty)
+                return res
             tag = _batch_prediction(req) if mode == "batch" and sig.endswith(":get_batch_outputs") else None
             if (tag, type(e).__name__) not in (("unsupported-column", "KeyError"), ("trafo3w-current-key", "KeyError"),
                                                 ("second-column-of-table", "ValueError")):
@@ -493,6 +500,7 @@ def check(case):
     node = oracles.fused_nodes(base)
     vc = [(et, i, node[base[et].at[i, "bus"]]) for et in ("gen", "ext_grid") for i in base[et].index]
     shared_vc = {(et, i) for et, i, n in vc if sum(1 for _, _, m in vc if m == n) > 1}
+    shared_nodes = {n for et, i, n in vc if (et, i) in shared_vc and sum(1 for m in node.values() if m == n) > 1}
     changed = False
     for t, c, idx in req:
         name = "%s.%s" % (t, c)
@@ -520,6 +528,11 @@ def check(case):
             # the split of P/Q between several voltage-controlling elements of one node is not unique (DESIGN sec. 5.4)
             for k, lab in enumerate(labels):
                 if (t[4:], lab) in shared_vc:
+                    bad[:, k] = False
+        if t == "res_bus" and c in ("p_mw", "q_mvar"):
+            # ... and so is the bus power of the buses that are fused into such a node
+            for k, lab in enumerate(labels):
+                if node[lab] in shared_nodes:
                     bad[:, k] = False
         if bad.any():
             r, k = [int(x) for x in np.argwhere(bad)[0]]
